@@ -153,6 +153,12 @@ func (e *Engine) generate(prop string, only string) *runResult {
 			if hasProp(o.Props, "thorough") && e.tier != "thorough" {
 				continue
 			}
+			if hasProp(o.Props, "assumed") {
+				// a clause marked [... assumed] is part of the contract its callers use but is NOT discharged: it is
+				// listed as an assumption in the evidence of every property whose check meets it
+				e.assumptionsUsed["ASSUMED clause (stated, used by callers, not discharged): "+o.base()+" :: "+o.Contract] = true
+				continue
+			}
 			if prop != "" && only == "" && !dep[key] {
 				// obligations of the property: tagged clauses, plus untagged safety/frame/pre/cover of tagged functions
 				if len(o.Props) > 0 && !hasProp(o.Props, prop) {
